@@ -248,9 +248,4 @@ def execute(sc):
 def known_sig(sc, v):
     if sc.get("engine") == "S":
         return None
-    if v["oracle"] in ("weighted-sum", "provider-time", "provider-pulls"):
-        from ..findings import shared_pull_upstream, SHARED
-        if v.get("comp") and shared_pull_upstream(sc, v["comp"]) and v.get("shared_ctx") in ("nonmono", "dup-stateful"):
-            return SHARED
-        return None
     return e1_known_sig(sc, v)
